@@ -104,6 +104,27 @@ class Poly:
     def symbols(self):
         return {s for k in self.t for s, _ in k}
 
+    def subst(self, facts):
+        """replace symbols by constants ({name: Fraction})"""
+        out = Poly()
+        for k, v in self.t.items():
+            term = Poly.const(v)
+            for s, e in k:
+                base = Poly.const(facts[s]) if s in facts else Poly.sym(s)
+                if e < 0:
+                    if s in facts:
+                        if facts[s] == 0:
+                            raise AnalysisBroken('symalg: substitution divides by zero')
+                        base = Poly.const(1 / Fraction(facts[s]))
+                        e = -e
+                    else:
+                        term = _rawmul(term, Poly({((s, e),): Fraction(1)}))
+                        continue
+                for _ in range(e):
+                    term = _rawmul(term, base)
+            out = out + term
+        return out.reduce()
+
     def __repr__(self):
         if not self.t:
             return '0'
@@ -139,6 +160,8 @@ class Alg:
     def __init__(self, prog, depth=8):
         self.prog = prog
         self.depth = depth
+        self.plan = None
+        self.trace = []
 
     def bad(self, fn, n, what):
         raise AnalysisBroken('symalg: %s in %s line %s: %s' % (what, fn['qn'], n.get('l'), astu.src(n)
@@ -161,6 +184,29 @@ class Alg:
             return r.v
         return None
 
+    def paths(self, fn, make_args, limit=64):
+        """every path through the `if`s of fn (and of the callees it inlines): [(decisions, value)] with
+        decisions = [(line, condition text, taken?, condition node)]; loops stay unsupported"""
+        out = []
+        self.plan = []
+        try:
+            while True:
+                self.trace = []
+                v = self.call(fn, make_args())
+                out.append((list(self.trace), v))
+                if len(out) > limit:
+                    raise AnalysisBroken('symalg: more than %d paths through %s' % (limit, fn['qn']))
+                plan = [t[2] for t in self.trace]
+                while plan and plan[-1] is False:
+                    plan.pop()
+                if not plan:
+                    break
+                plan[-1] = False
+                self.plan = plan
+        finally:
+            self.plan = None
+        return out
+
     def stmt(self, fn, s, env, depth):
         k = s['k']
         if k == 'Compound':
@@ -178,6 +224,16 @@ class Alg:
             raise _Return(self.ex(fn, s['e'], env, depth) if s.get('e') else None)
         elif k == 'Null':
             pass
+        elif k == 'If' and getattr(self, 'plan', None) is not None and not s.get('init'):
+            # path enumeration (see `paths`): the condition is not interpreted, both arms are explored in turn
+            idx = len(self.trace)
+            if idx >= len(self.plan):
+                self.plan.append(True)
+            take = self.plan[idx]
+            self.trace.append((s.get('l'), astu.src(s['c']), take, s['c']))
+            arm = s['t'] if take else s.get('e')
+            if arm:
+                self.stmt(fn, arm, env, depth)
         else:
             self.bad(fn, s, 'control flow (the function is no longer straight-line)')
 
@@ -304,3 +360,27 @@ def is_rotation(A):
     if det != one:
         return False, 'det = %r' % det
     return True, ''
+
+
+def zero_angle_facts(decisions, params):
+    """facts a path may assume: a taken test `<angle parameter> == 0` (either order, literal zero) fixes cos = 1, sin = 0.
+    params: {source parameter name: symbol name}.  Other tests give no fact (the identity must then hold as it stands)."""
+    facts = {}
+    for line, text, taken, c in decisions:
+        c = astu.strip_casts(c)
+        while c['k'] == 'Paren':
+            c = astu.strip_casts(c['e'])
+        if c['k'] != 'Bin' or c['op'] not in ('==', '!='):
+            continue
+        if (c['op'] == '==') != taken:
+            continue
+        a, b = astu.strip_casts(c['a']), astu.strip_casts(c['b'])
+        for x, y in ((a, b), (b, a)):
+            if x['k'] == 'Ref' and x['name'] in params and astu.num_value(y) == 0:
+                facts['c:' + params[x['name']]] = Fraction(1)
+                facts['s:' + params[x['name']]] = Fraction(0)
+    return facts
+
+
+def describe(decisions):
+    return ' and '.join('%s`%s` (line %s)' % ('' if t else 'not ', txt, l) for l, txt, t, c in decisions) or 'the only path'
